@@ -290,6 +290,7 @@ class Buf:
 
     def __init__(self, origin=""):
         self.bid, self.writes, self.origin = next(Buf._ids), 0, origin
+        self.view_writer = None     # the view through which the memory was last written (every other holder's term is stale then)
 
     def __repr__(self):
         return f"buf#{self.bid}({self.origin})"
@@ -333,6 +334,8 @@ class AArr:
     def check_fresh(self):
         if self.view and self.buf.writes != self.stamp:
             raise ModelAbort("a view is read after its base array was written: outside the modelled subset")
+        if self.buf.view_writer is not None and self.buf.view_writer is not self:
+            raise ModelAbort("an array is read after its memory was written through a view of it: outside the modelled subset")
 
     def __repr__(self):
         return f"AArr(axes={['ONE' if a == ONE else a for a in self.axes]}, {show(self.term)}, {self.buf}{' view' if self.view else ''})"
@@ -811,8 +814,24 @@ def getitem(a: AArr, idx):
 
 def setitem(a: AArr, idx, value):
     """a[idx] = value : NumPy assigns value broadcast to the shape of a[idx]"""
+    a.check_fresh()
+    if isinstance(idx, AArr):
+        # boolean mask of the array's own shape: a[mask] = scalar
+        if tuple(idx.axes) != tuple(a.axes) or isinstance(value, AArr):
+            raise ModelAbort("array-valued index other than a same-shape boolean mask with a scalar value")
+        a.term = t_fn("where", idx.term, as_term(value), a.term)
+        a.buf.writes += 1
+        a.stamp = a.buf.writes
+        if a.view:
+            a.buf.view_writer = a
+        return
     if a.view:
-        raise ModelAbort("store through a view: outside the modelled subset")
+        # the write reaches the base array's memory; only this view's entries are tracked from here on (any other holder of
+        # the memory aborts when read), which is enough to see THAT the memory was written
+        axes0 = index_plan(a, idx)[0]
+        if idx is not Ellipsis and not (isinstance(idx, tuple) and all(x is Ellipsis or x == slice(None) for x in idx)):
+            raise ModelAbort("partial store through a view: outside the modelled subset")
+        a.buf.view_writer = a
     axes, m, basic = index_plan(a, idx)
     vax = axes_of(value)
     res = broadcast([axes, vax], "assignment into an indexed region")
